@@ -170,7 +170,12 @@ fn item_into(out: &mut Vec<u8>, f: &F, rng: &mut Option<&mut Rng>, ascii_only: b
                 out.extend(a);
             }
             if *dn {
-                out.extend(b":dn");
+                // the literal "dn" of dnattrs is case-insensitive (RFC 5234 2.3); canonical: lower case
+                let sp: &[u8] = match rng {
+                    Some(r) => *r.pick(&[&b":dn"[..], &b":dn"[..], &b":DN"[..], &b":Dn"[..], &b":dN"[..]]),
+                    None => &b":dn"[..],
+                };
+                out.extend(sp);
             }
             if let Some(r) = rule {
                 out.push(b':');
@@ -212,9 +217,42 @@ pub fn canon(f: &F) -> Vec<u8> {
     o
 }
 
-/// escaping normal form of a string: every well-formed \hh replaced by the canonical rendering of
-/// its octet; outer parentheses supplied for a bare item
-pub fn norm_top(s: &[u8]) -> Vec<u8> {
+/// spelling normal form of the dnattrs keyword, item by item.  An item is a maximal stretch without
+/// parentheses; the part before its first `=` is `attr [:dn] [:rule] :`.  `:dn` (any case) is the
+/// keyword iff it is the first `:`-segment, is followed by `:`, and either an attribute description
+/// precedes it or a matching rule follows it (`(:DN:=x)` is the matching rule called DN).
+pub fn lower_kw(s: &[u8]) -> Vec<u8> {
+    let mut o = s.to_vec();
+    let mut start = 0;
+    for i in 0..=s.len() {
+        if i == s.len() || s[i] == b'(' || s[i] == b')' {
+            let t = &s[start..i];
+            if let Some(e) = t.iter().position(|&c| c == b'=') {
+                let p = &t[..e];
+                if let Some(k) = p.iter().position(|&c| c == b':') {
+                    let attr_ok = k > 0 && p[..k].iter().all(|&c| c.is_ascii_alphanumeric() || c == b'-' || c == b'.' || c == b';');
+                    if p.len() >= k + 4
+                        && (p[k + 1] == b'd' || p[k + 1] == b'D')
+                        && (p[k + 2] == b'n' || p[k + 2] == b'N')
+                        && p[k + 3] == b':'
+                        && ((k > 0 && attr_ok) || (k == 0 && p.len() > 4))
+                    {
+                        o[start + k + 1] = b'd';
+                        o[start + k + 2] = b'n';
+                    }
+                }
+            }
+            start = i + 1;
+        }
+    }
+    o
+}
+
+/// normal form of a string: the dnattrs keyword in lower case, every well-formed \hh replaced by the
+/// canonical rendering of its octet; outer parentheses supplied for a bare item
+pub fn norm_top(s0: &[u8]) -> Vec<u8> {
+    let lowered = lower_kw(s0);
+    let s = &lowered[..];
     let mut o = vec![];
     let mut i = 0;
     while i < s.len() {
@@ -385,7 +423,7 @@ pub fn gen_item(rng: &mut Rng, lib_ext: bool) -> F {
                 F::Ext(rule, Some(a), v, dn)
             } else {
                 // no type: the rule is mandatory (and may be spelled dn)
-                let r = rule.unwrap_or_else(|| rng.pick(&["dn", "2.5.13.2", "caseIgnoreMatch"]).as_bytes().to_vec());
+                let r = rule.unwrap_or_else(|| rng.pick(&["dn", "DN", "dN", "2.5.13.2", "caseIgnoreMatch"]).as_bytes().to_vec());
                 F::Ext(Some(r), None, v, dn)
             }
         }
@@ -453,17 +491,24 @@ fn check_string(out: &mut Out, s: &[u8], kind: &str) -> Outc {
 }
 
 /// RFC 5234 §2.3: the literal "dn" of `dnattrs` is case-insensitive; a string spelling it `DN`
-/// must get the BER of the lower-case spelling
+/// must be accepted and get the BER of the lower-case spelling
 fn dn_case_check(out: &mut Out, s: &[u8], lower: &[u8]) {
-    let a = real(s);
+    let a = check_string(out, s, "corpus");
     let b = real(lower);
-    out.case(&hex(s), true);
-    out.m(&format!("filter.parse {}", hex(s)), &a.show());
     out.r(
         &format!("filter.rfc.dn-keyword-case {}", String::from_utf8_lossy(s)),
-        a == b,
+        matches!(a, Outc::Ok(_)) && a == b,
         &format!("dnattrs keyword matched case-sensitively: got {} but lower-case spelling gives {}", a.show(), b.show()),
     );
+}
+
+/// a string with the canonical RFC 4515 string of the tree it denotes, as read from the RFC by hand
+fn rfc_reading(out: &mut Out, s: &str, canonical: &str) {
+    let got = check_string(out, s.as_bytes(), "corpus");
+    match &got {
+        Outc::Ok(ber) => out.o(&format!("spec.filter.print {}", hex(ber)), &hex(canonical.as_bytes())),
+        _ => out.r(&format!("filter.rfc.reading {}", s), false, &format!("not accepted: {}", got.show())),
+    }
 }
 
 fn word(k: usize, mut idx: usize, buf: &mut Vec<u8>) {
@@ -575,7 +620,8 @@ fn mutate(rng: &mut Rng, s: &[u8]) -> Vec<u8> {
         return vec![*rng.pick(&ALPHABET)];
     }
     let i = rng.below(e.len() as u64) as usize;
-    match rng.below(4) {
+    match rng.below(5) {
+        4 => e[i] = if e[i].is_ascii_lowercase() { e[i].to_ascii_uppercase() } else { e[i].to_ascii_lowercase() },
         0 => e[i] = *rng.pick(&ALPHABET),
         1 => {
             e.remove(i);
@@ -623,6 +669,28 @@ pub fn run(thorough: bool, mut rng: Rng, mut out: Out) {
     // the dnattrs keyword in other cases (RFC 5234: literals are case-insensitive)
     for (s, lower) in [("(cn:DN:=x)", "(cn:dn:=x)"), ("(cn:Dn:2.4.6:=x)", "(cn:dn:2.4.6:=x)"), ("(:dN:caseExactMatch:=x)", "(:dn:caseExactMatch:=x)")] {
         dn_case_check(&mut out, s.as_bytes(), lower.as_bytes());
+    }
+    // `dn` as keyword, as (prefix of) a matching rule name, and inside values: the RFC reading
+    for (s, canonical) in [
+        ("(cn:dnfoo:=x)", "(cn:dnfoo:=x)"),
+        ("(cn:DNfoo:=x)", "(cn:DNfoo:=x)"),
+        ("(:DN:=x)", "(:DN:=x)"),
+        ("(:dn:=x)", "(:dn:=x)"),
+        ("(cn:DN:=x)", "(cn:dn:=x)"),
+        ("(cn:Dn:2.4.6:=x)", "(cn:dn:2.4.6:=x)"),
+        ("(:dN:caseExactMatch:=x)", "(:dn:caseExactMatch:=x)"),
+        ("(cn:dn:DN:=x)", "(cn:dn:DN:=x)"),
+        ("(cn:DN:dn:=x)", "(cn:dn:dn:=x)"),
+        ("(:DN:dn:=x)", "(:dn:dn:=x)"),
+        ("(:Dn:DN:=x)", "(:dn:DN:=x)"),
+        ("(cn:=:DN:)", "(cn:=:DN:)"),
+        ("(a=:DN:)", "(a=:DN:)"),
+        ("(cn:DN-x:=x)", "(cn:DN-x:=x)"),
+        ("cn:DN:=x", "(cn:dn:=x)"),
+        (":DN:=x", "(:DN:=x)"),
+        ("(&(cn:DN:=:DN:)(!(:DN:=x)))", "(&(cn:dn:=:DN:)(!(:DN:=x)))"),
+    ] {
+        rfc_reading(&mut out, s, canonical);
     }
     // deep nesting (each level is a native recursion of the real parser)
     for d in [1usize, 10, 63, 64, 100, 500, 2000] {
@@ -717,7 +785,7 @@ pub fn run(thorough: bool, mut rng: Rng, mut out: Out) {
         let s: Vec<u8> = if rng.chance(1, 2) {
             rng.bytes(n)
         } else {
-            (0..n).map(|_| if rng.chance(4, 5) { *rng.pick(&ALPHABET) } else { rng.next() as u8 }).collect()
+            (0..n).map(|_| match rng.below(10) { 0..=6 => *rng.pick(&ALPHABET), 7 => *rng.pick(b"DN"), _ => rng.next() as u8 }).collect()
         };
         check_string(&mut out, &s, "random");
     }
